@@ -85,6 +85,34 @@ class Checker:
                 out.append(p)
         return out
 
+    @staticmethod
+    def check_param(ch):
+        """the documented grouping: ['*' | '**'] (name | tfpdef) ['=' default] [','] - one parameter, nothing else"""
+        def op(c, *values):
+            return c.type == 'operator' and c.value in values
+        i = 0
+        if ch and op(ch[0], '*', '**'):
+            i = 1
+        if i >= len(ch) or ch[i].type not in ('name', 'tfpdef'):
+            return 'param node without a name: ' + ' '.join(getattr(c, 'value', None) or c.type for c in ch)[:80]
+        i += 1
+        if i < len(ch) and op(ch[i], '='):
+            if i + 1 >= len(ch) or op(ch[i + 1], ','):
+                return 'param node with = but no default'
+            i += 2
+        if i < len(ch) and op(ch[i], ','):
+            i += 1
+        if i != len(ch):
+            return 'param node holds more than one parameter: ' + ' '.join(getattr(c, 'value', None) or c.type for c in ch)[:80]
+        return None
+
+    def params_grouped(self, plist):
+        """outside param nodes only the separators remain: ',', the bare '*' and '/'"""
+        for p in plist:
+            if p.type != 'param' and not (p.type == 'operator' and p.value in (',', '*', '/')):
+                return 'parameter not grouped into a param node: ' + (getattr(p, 'value', None) or p.type)
+        return None
+
     def check_node(self, node):
         """returns None if ok, else a reason string"""
         t = node.type
@@ -92,7 +120,9 @@ class Checker:
         if t in ('error_node',):
             return None
         if t == 'param':
-            return None if node.parent is not None and node.parent.type in ('parameters', 'lambdef') else 'param outside parameters'
+            if node.parent is None or node.parent.type not in ('parameters', 'lambdef'):
+                return 'param outside parameters'
+            return self.check_param(ch)
         if len(ch) == 0:
             return 'empty node'
         if t != 'file_input' and len(ch) == 1:
@@ -105,6 +135,10 @@ class Checker:
         if t == 'suite' and ch[0].type == 'newline':
             ch = [ch[0], Virtual('INDENT')] + ch[1:] + [Virtual('DEDENT')]
         if t == 'parameters':
+            # the grouping is done when the funcdef node is built; a parameter list stranded in an error node keeps the raw form
+            bad = self.params_grouped(ch[1:-1]) if node.parent is not None and node.parent.type == 'funcdef' else None
+            if bad:
+                return bad
             inner = self.flatten_params(ch[1:-1])
             if inner:
                 lst = 'typedargslist'
@@ -113,6 +147,9 @@ class Checker:
                     return 'params do not form ' + lst
                 ch = [ch[0], v, ch[-1]]
         if t == 'lambdef':
+            bad = self.params_grouped(ch[1:-2])
+            if bad:
+                return bad
             inner = self.flatten_params(ch[1:-2])
             if inner:
                 lst = 'varargslist'
